@@ -200,6 +200,8 @@ Fixpoint run (fixed : bool) (cap : N) (e : exec) (acc : list task) (steps : list
   | s :: r => run fixed cap (wstep fixed e s) acc r
   end.
 
+Definition is_submit (s : step) : bool := match s with Submit _ => true | _ => false end.
+
 Fixpoint cat_some {A} (l : list (option A)) : list A :=
   match l with
   | [] => []
